@@ -1,3 +1,180 @@
-// unit merkle: harnesses for sdk/src/utils/merkle.rs (included by the cfg(kani) hook at the end of that file)
+// unit merkle: sdk/src/utils/merkle.rs (included by the cfg(kani) hook at the end of that file)
+// C17: MerkleAccumulator::add_merkle_leaf (Engine B: bounded-exhaustive, native, real code)
+// C16: native replay driver for the Verus unit (all n <= N, every index, every row, on the real code)
 #[allow(unused_imports)]
 use super::*;
+
+// ---------------------------------------------------------------- C17 contract
+// View: fed(acc, id) = pre-images of the recorded leaves ++ remainder.  Contract (from the statement: "the recorded
+// leaves depend only on the concatenated payload"): after feeding chunks c1..ck of one mdat,
+//   large_size == false: fed == (c1 ++ .. ++ ck)[8..]   (exactly the 8-byte size/type header is skipped)
+//   large_size == true : fed == c1 ++ .. ++ ck          (the caller already skipped the 16-byte header)
+//   fixed size fs: every leaf has length fs, |remainder| < fs, and there is no remainder entry of length 0..: rem == body[n*fs..]
+// Written through hash_by_alg so the same text is the contract natively (SHA-256).
+fn c17_contract(payload: &[u8], cuts: &[usize], fixed: Option<usize>, large: bool) -> Result<(), String> {
+    let mut acc = MerkleAccumulator::default();
+    acc.fixed_size = fixed;
+    let mut prev = 0usize;
+    let mut pieces: Vec<&[u8]> = Vec::new();
+    for &c in cuts {
+        pieces.push(&payload[prev..c]);
+        prev = c;
+    }
+    pieces.push(&payload[prev..]);
+    for p in &pieces {
+        let r = std::panic::catch_unwind(std::panic::AssertUnwindSafe(|| acc.add_merkle_leaf(0, large, p)));
+        match r {
+            Err(_) => return Err("panic".to_string()),
+            Ok(Err(e)) => return Err(format!("error {e:?}")),
+            Ok(Ok(())) => {}
+        }
+    }
+    let skip = if large { 0 } else { 8 };
+    let body: &[u8] = if payload.len() > skip { &payload[skip..] } else { &[] };
+    let leaves = acc.merkle_leaves.get(&0).cloned().unwrap_or_default();
+    match fixed {
+        Some(fs) => {
+            let rem = acc.fixed_size_remainder.get(&0).cloned().unwrap_or_default();
+            if leaves.len() != body.len() / fs {
+                return Err(format!("{} leaves recorded, {} expected", leaves.len(), body.len() / fs));
+            }
+            if rem.len() != body.len() % fs {
+                return Err(format!("remainder {} bytes, {} expected", rem.len(), body.len() % fs));
+            }
+            for (k, (len, h)) in leaves.iter().enumerate() {
+                if *len as usize != fs || *h != hash_by_alg("sha256", &body[k * fs..(k + 1) * fs], None) {
+                    return Err(format!("leaf {k} is not the digest of body[{}..{}]", k * fs, (k + 1) * fs));
+                }
+            }
+            if rem[..] != body[leaves.len() * fs..] {
+                return Err("remainder bytes differ".to_string());
+            }
+            Ok(())
+        }
+        None => {
+            // variable leaves: consecutive slices of the body, in order, covering it exactly
+            let mut pos = 0usize;
+            for (k, (len, h)) in leaves.iter().enumerate() {
+                let l = *len as usize;
+                if pos + l > body.len() || *h != hash_by_alg("sha256", &body[pos..pos + l], None) {
+                    return Err(format!("leaf {k} is not the digest of the next {l} body bytes at {pos}"));
+                }
+                pos += l;
+            }
+            if pos != body.len() {
+                return Err(format!("leaves cover {pos} of {} body bytes", body.len()));
+            }
+            Ok(())
+        }
+    }
+}
+
+#[test]
+fn c17_add_merkle_leaf_all_splits() {
+    let thorough = std::env::var("VERIF_B_TIER").map(|t| t == "thorough").unwrap_or(false);
+    let n: usize = if thorough { 28 } else { 20 };
+    let payload: Vec<u8> = (1u8..=n as u8).collect();
+    let mut evals = 0usize;
+    let mut nontrivial = 0usize;
+    let mut viol = 0usize;
+    let mut shown: std::collections::BTreeMap<String, usize> = std::collections::BTreeMap::new();
+    for large in [false, true] {
+        for fixed in [None, Some(2usize), Some(3), Some(5)] {
+            for a in 0..=n {
+                for b in a..=n {
+                    for c in b..=n {
+                        // 2-way splits are the b == c == n cases, 3-way the c == n cases, 4-way the rest
+                        if !thorough && c != n {
+                            continue;
+                        }
+                        evals += 1;
+                        if a > 0 && a < n {
+                            nontrivial += 1;
+                        }
+                        if let Err(why) = c17_contract(&payload, &[a, b, c], fixed, large) {
+                            viol += 1;
+                            // input class: length of the first non-empty chunk
+                            let first = if a > 0 { a } else if b > 0 { b } else if c > 0 { c } else { n };
+                            let key = if why == "panic" {
+                                "add_merkle_leaf.panic".to_string()
+                            } else if !large && first <= 8 {
+                                "add_merkle_leaf.header_skip.first_chunk_1to8".to_string()
+                            } else {
+                                "add_merkle_leaf.fed_bytes".to_string()
+                            };
+                            let cnt = shown.entry(key.clone()).or_insert(0);
+                            *cnt += 1;
+                            if *cnt <= 5 {
+                                println!("VERIF-B-VIOLATION key={key} input=payload=1..={n} cuts=[{a},{b},{c}] fixed={fixed:?} large={large}: {why}");
+                            }
+                        }
+                    }
+                }
+            }
+        }
+    }
+    println!("VERIF-B-SAMPLE payload=1..={n} cuts=[3,9,{n}] fixed=Some(3) large=false -> {:?}", c17_contract(&payload, &[3, 9, n], Some(3), false));
+    println!("VERIF-B-SAMPLE payload=1..={n} cuts=[10,15,{n}] fixed=None large=true -> {:?}", c17_contract(&payload, &[10, 15, n], None, true));
+    println!("VERIF-B unit=merkle test=c17_add_merkle_leaf_all_splits evaluations={evals} nontrivial={nontrivial} exhaustive=true domain=payload of {n} bytes x every {} split x fixed_size in {{None,2,3,5}} x large_size in {{false,true}}; violations={viol}", if thorough { "2/3/4-way" } else { "2/3-way" });
+}
+
+// ---------------------------------------------------------------- C16 native replay / differential driver
+// every leaf count n <= N, every leaf index, every stored row: the real generate/prove/check functions agree
+#[test]
+fn c16_generated_proofs_verify_natively() {
+    use crate::assertions::{MerkleMap, VecByteBuf};
+    use serde_bytes::ByteBuf;
+    let thorough = std::env::var("VERIF_B_TIER").map(|t| t == "thorough").unwrap_or(false);
+    let max_n: usize = if thorough { 300 } else { 40 };
+    let mut evals = 0usize;
+    let mut nontrivial = 0usize;
+    let mut viol = 0usize;
+    for n in 1..=max_n {
+        let leaves: Vec<MerkleNode> = (0..n).map(|i| MerkleNode(hash_by_alg("sha256", &(i as u32).to_be_bytes(), None))).collect();
+        let tree = C2PAMerkleTree::from_leaves(leaves.clone(), "sha256", false);
+        for row in 0..tree.layers.len() {
+            let hashes: Vec<ByteBuf> = tree.layers[row].iter().map(|nd| ByteBuf::from(nd.0.clone())).collect();
+            let mm = MerkleMap {
+                unique_id: 0,
+                local_id: 0,
+                count: n,
+                alg: Some("sha256".to_string()),
+                init_hash: None,
+                hashes: VecByteBuf(hashes),
+                fixed_block_size: None,
+                variable_block_sizes: None,
+            };
+            for i in 0..n {
+                evals += 1;
+                if n > 1 {
+                    nontrivial += 1;
+                }
+                let proof = match tree.get_proof_by_index(i, row) {
+                    Ok(p) => p,
+                    Err(_) => {
+                        viol += 1;
+                        println!("VERIF-B-VIOLATION key=merkle.get_proof_by_index.err input=n={n} row={row} index={i}");
+                        continue;
+                    }
+                };
+                let pv = if proof.is_empty() { None } else { Some(VecByteBuf(proof.into_iter().map(ByteBuf::from).collect())) };
+                if !mm.check_merkle_tree("sha256", &leaves[i].0, i, &pv) {
+                    viol += 1;
+                    if viol < 20 {
+                        println!("VERIF-B-VIOLATION key=merkle.generated_proof_rejected input=n={n} row={row} index={i}");
+                    }
+                }
+                // a different leaf value must not verify at the same index with the same proof
+                let other = hash_by_alg("sha256", b"not a leaf", None);
+                if mm.check_merkle_tree("sha256", &other, i, &pv) {
+                    viol += 1;
+                    if viol < 20 {
+                        println!("VERIF-B-VIOLATION key=merkle.foreign_leaf_accepted input=n={n} row={row} index={i}");
+                    }
+                }
+            }
+        }
+    }
+    println!("VERIF-B-SAMPLE n=5 row=1 index=4: proof generated by get_proof_by_index verified by check_merkle_tree");
+    println!("VERIF-B unit=merkle test=c16_generated_proofs_verify_natively evaluations={evals} nontrivial={nontrivial} exhaustive=true domain=leaf counts 1..={max_n} x every stored row x every leaf index; violations={viol}");
+}
